@@ -43,6 +43,8 @@ pub struct SolveResult {
     pub print: Option<String>,
     pub bound: f64,
     pub tau_post: f64,
+    pub time_same: bool,     // solution.solve_time is info.solve_time, bit for bit
+    pub iters_same: bool,    // solution.iterations is info.iterations
     pub kappa_post: f64,
 }
 
@@ -305,7 +307,7 @@ pub fn done_event(run: usize, p: &Problem, st: &DefaultSettings<f64>, r: &SolveR
     let v = json!({"ev": "Done", "run": run, "status": r.status, "iterations": r.iterations,
         "n": p.n(), "m": p.m(), "lens": [r.x.len(), r.s.len(), r.z.len()],
         "obj": fj(r.obj), "obj_d": fj(r.obj_d), "r_prim": fj(r.r_prim), "r_dual": fj(r.r_dual),
-        "print": print,
+        "print": print, "time_same": r.time_same, "iters_same": r.iters_same,
         "obs": {
             "compare_obj": lens_ok && !decomposed, "compare_res": lens_ok && !decomposed,
             "pres": fj(o.pres), "dres": fj(o.dres), "gap_abs": fj(o.gap_abs), "gap_rel": fj(o.gap_rel),
@@ -413,6 +415,7 @@ pub fn run_ipm(run: usize, p: &Problem, opts: &RunOpts) -> RunOut {
             status: status_code(sol.status), iterations: sol.iterations, x: sol.x.clone(), s: sol.s.clone(),
             z: sol.z.clone(), obj: sol.obj_val, obj_d: sol.obj_val_dual, r_prim: sol.r_prim, r_dual: sol.r_dual,
             print, bound, tau_post: solver.variables.τ, kappa_post: solver.variables.κ,
+            time_same: sol.solve_time.to_bits() == solver.info.solve_time.to_bits(), iters_same: sol.iterations == solver.info.iterations,
         }, evs, sym, pd, icones, eq)
     }));
     verif::set_script(vec![]);
